@@ -9049,10 +9049,19 @@ bool SoPlexBase<R>::_parseSettingsLine(char* line, const int lineNumber)
          else if(strncmp(paramName, _currentSettings->intParam.name[param].c_str(),
                          SPX_SET_MAX_LINE_LEN) == 0)
          {
-            int value;
-            value = std::stoi(paramValueString);
+            int value = 0;
+            bool valid = true;
 
-            if(setIntParam((SoPlexBase<R>::IntParam)param, value, false))
+            try
+            {
+               value = std::stoi(paramValueString);
+            }
+            catch(const std::exception&)
+            {
+               valid = false;
+            }
+
+            if(valid && setIntParam((SoPlexBase<R>::IntParam)param, value, false))
                break;
             else
             {
@@ -9081,18 +9090,21 @@ bool SoPlexBase<R>::_parseSettingsLine(char* line, const int lineNumber)
                          SPX_SET_MAX_LINE_LEN) == 0)
          {
             Real value;
+            char* end;
 
+            // strtod does not throw: overflow gives an infinite value, which setRealParam rejects, and denormal
+            // numbers are kept
 #ifdef WITH_LONG_DOUBLE
-            value = std::stold(paramValueString);
+            value = strtold(paramValueString, &end);
 #else
 #ifdef WITH_FLOAT
-            value = std::stof(paramValueString);
+            value = strtof(paramValueString, &end);
 #else
-            value = std::stod(paramValueString);
+            value = strtod(paramValueString, &end);
 #endif
 #endif
 
-            if(setRealParam((SoPlexBase<R>::RealParam)param, value))
+            if(end != paramValueString && setRealParam((SoPlexBase<R>::RealParam)param, value))
                break;
             else
             {
@@ -9149,7 +9161,16 @@ bool SoPlexBase<R>::_parseSettingsLine(char* line, const int lineNumber)
          unsigned int value;
          unsigned long parseval;
 
-         parseval = std::stoul(paramValueString);
+         try
+         {
+            parseval = std::stoul(paramValueString);
+         }
+         catch(const std::exception&)
+         {
+            SPX_MSG_INFO1(spxout, spxout << "Error parsing settings file: invalid value <" << paramValueString
+                          << "> for uint parameter <" << paramName << "> in line " << lineNumber << ".\n");
+            return false;
+         }
 
          if(parseval > UINT_MAX)
          {
@@ -9539,10 +9560,19 @@ bool SoPlexBase<R>::parseSettingsString(char* string)
          else if(strncmp(paramName, _currentSettings->intParam.name[param].c_str(),
                          SPX_SET_MAX_LINE_LEN) == 0)
          {
-            int value;
-            value = std::stoi(paramValueString);
+            int value = 0;
+            bool valid = true;
 
-            if(setIntParam((SoPlexBase<R>::IntParam)param, value, false))
+            try
+            {
+               value = std::stoi(paramValueString);
+            }
+            catch(const std::exception&)
+            {
+               valid = false;
+            }
+
+            if(valid && setIntParam((SoPlexBase<R>::IntParam)param, value, false))
                break;
             else
             {
@@ -9571,17 +9601,21 @@ bool SoPlexBase<R>::parseSettingsString(char* string)
                          SPX_SET_MAX_LINE_LEN) == 0)
          {
             Real value;
+            char* end;
+
+            // strtod does not throw: overflow gives an infinite value, which setRealParam rejects, and denormal
+            // numbers are kept
 #ifdef WITH_LONG_DOUBLE
-            value = std::stold(paramValueString);
+            value = strtold(paramValueString, &end);
 #else
 #ifdef WITH_FLOAT
-            value = std::stof(paramValueString);
+            value = strtof(paramValueString, &end);
 #else
-            value = std::stod(paramValueString);
+            value = strtod(paramValueString, &end);
 #endif
 #endif
 
-            if(setRealParam((SoPlexBase<R>::RealParam)param, value))
+            if(end != paramValueString && setRealParam((SoPlexBase<R>::RealParam)param, value))
                break;
             else
             {
@@ -9638,7 +9672,16 @@ bool SoPlexBase<R>::parseSettingsString(char* string)
          unsigned int value;
          unsigned long parseval;
 
-         parseval = std::stoul(paramValueString);
+         try
+         {
+            parseval = std::stoul(paramValueString);
+         }
+         catch(const std::exception&)
+         {
+            SPX_MSG_INFO1(spxout, spxout << "Error parsing setting string: invalid value <" << paramValueString
+                          << "> for uint parameter <" << paramName << ">.\n");
+            return false;
+         }
 
          if(parseval > UINT_MAX)
          {
